@@ -191,6 +191,9 @@ def build_object(reg, model, inp):
         list.extend(obj, [to_native(x) for x in inp.get("__list__", [])])
     elif issubclass(cls, dict):
         obj = dict.__new__(cls)
+        content = to_native(inp.get("__dict__", {}))
+        if isinstance(content, dict):
+            dict.update(obj, content)
     else:
         obj = object.__new__(cls)
     for name, val in inp.items():
